@@ -77,6 +77,9 @@ func converted(v ssa.Value) (bool, string) {
 			if how != "" || deadBlock(in.Block()) {
 				return
 			}
+			if callsNoReturn(in) && errGuard(in.Block(), false, match) {
+				how = "a call that never returns (fatal helper) where it is non-nil"
+			}
 			switch x := in.(type) {
 			case *ssa.Panic:
 				if errGuard(in.Block(), false, match) {
